@@ -64,6 +64,15 @@ def static_asserts(g):
             for op, what in (("resize(1)", "resize"), ("push_back('x')", "push_back"), ("pop_back()", "pop_back"), ("clear()", "clear"), ("assign_string(\"\")", "assign_string"),
                              ("erase(%s.begin())" % de, "erase"), ("insert(%s.begin(), 'x')" % de, "insert"), ("assign(1, 'x')", "assign")):
                 chk("%s.%s" % (de, op), "data %s %s" % (dt.name, what))
+    # conversion directions of every kind of sub-view (group, entry, composite, array, data)
+    root = g.levels[0]
+    subs = ["DV(V).%s()" % gr.name for gr in root.node.groups] + ["(*DV(V).%s().begin())" % gr.name for gr in root.node.groups] + ["DV(V).%s()" % dt.name for dt in root.node.data]
+    subs += ["DV(V)" + "".join(".%s()" % c for c in chain) for (chain, off, ct) in root.comps] + [lf.expr("DV(V)") for lf in root.leaves if lf.kind == "array" and not lf.const]
+    for k, e_ in enumerate(subs):
+        mt = "decltype(%s)" % e_.replace("DV(V)", "DV(%s)" % MV); ct_ = "decltype(%s)" % e_.replace("DV(V)", "DV(%s)" % CV)
+        o.append('static_assert(std::is_convertible<%s, %s>::value, "sub-view %d converts towards const");' % (mt, ct_, k))
+        o.append('static_assert(!std::is_convertible<%s, %s>::value, "sub-view %d (%s) must not convert from const to mutable");' % (ct_, mt, k, e_.replace('"', "")))
+        n[0] += 1
     chk("sbepp::fill_message_header(DV(V))", "fill_message_header")
     o.append('static_assert(std::is_convertible<%s, %s>::value, "views convert implicitly towards const");' % (MV, CV))
     o.append('static_assert(!std::is_convertible<%s, %s>::value, "views must not convert from const to mutable");' % (CV, MV))
